@@ -327,7 +327,7 @@ func (p *c07) Run(c *verifsim.Chooser, st *Stats, render bool) *Outcome {
 			{Obj: c07Objs[(oi+1)%len(c07Objs)], ObjDesc: fmt.Sprintf("%+v", c07Objs[(oi+1)%len(c07Objs)]), UseRun: true},
 			{Obj: obj, ObjDesc: fmt.Sprintf("%+v", obj)},
 		}
-		currentDesc.Store(fmt.Sprintf("corpus[%d]", si))
+		setDesc(fmt.Sprintf("corpus[%d]", si))
 	} else if mode == 2 {
 		si := c.Intn(len(c07Corpus))
 		oi := c.Intn(len(c07Objs))
@@ -356,7 +356,7 @@ func (p *c07) Run(c *verifsim.Chooser, st *Stats, render bool) *Outcome {
 			}
 			runs = append(runs, r)
 		}
-		currentDesc.Store(fmt.Sprintf("long history corpus[%d]", si))
+		setDesc(fmt.Sprintf("long history corpus[%d]", si))
 	} else {
 		sc := GenScript(c, GenCfg{Funcs: true, Faults: true, Hashes: true})
 		text, globals, scoped = sc.Text, sc.Globals, sc.Scoped
@@ -368,7 +368,7 @@ func (p *c07) Run(c *verifsim.Chooser, st *Stats, render bool) *Outcome {
 			usePool = true
 		}
 		opt = c.Intn(2) == 0
-		currentDesc.Store("random history")
+		setDesc("random history")
 	}
 	o.Digest.Str(text)
 
